@@ -528,6 +528,7 @@ func (x *dbExec) get(db *simpledb.DB, k int, g int, flavor string) string {
 		v = []byte(sv)
 	} else {
 		v, err = db.GetBytes(x.keys[k])
+		defer pokeReturned(v)
 	}
 	r := ""
 	switch {
@@ -907,6 +908,30 @@ func (x *dbExec) window(db *simpledb.DB, s dbStep) (closed bool) {
 		ctl.release("flush.written")
 		<-r2
 		<-g
+	case "close-while-flushing":
+		// C19: Close joins the flusher however long the last flush takes; it must not return while the flusher is still at work
+		// (s.Us = how long the flusher is held, in microseconds)
+		x.step(db, dbStep{Op: "put", K: 0, V: "w6a", Pad: 5}, 0)
+		ctl.holdPoint("flush.written") // the flush of the LAST memstore, handed over by Close itself, is parked here
+		c := spawn(func() {
+			if err := db.Close(); err != nil {
+				rec.emit(M{"t": "bgfail", "msg": "close failed: " + err.Error()})
+			}
+		})
+		if !ctl.await("flush.written", 1, wait) {
+			rec.emit(M{"t": "note", "name": "window not reached: flush.written"})
+			ctl.release("flush.written")
+			<-c
+			return true
+		}
+		hold := time.Duration(s.Us) * time.Microsecond
+		if hold <= 0 {
+			hold = 2 * time.Second
+		}
+		note("close", "flush-in-progress", stillBlocked(c, hold))
+		ctl.release("flush.written")
+		<-c
+		return true
 	case "open-while-compacting":
 		// C17: Open on a handle that is already open must be refused WITHOUT any effect - also while a compaction sits between its merge
 		// and its reflect (the folder of the running compaction is not debris of a crash)
